@@ -13,6 +13,8 @@
                           only the plaintext of the frames before the damage authenticates
   `c14_tampered_load`   : hence a loader that, on the intact plaintext, read into the last frame, reports an
                           I/O error — never a value
+  `c14_tampered_written`: for any write/flush program on a `CryptoWriter` and a loader that consumes exactly the
+                          written plaintext, every cut or change of the stream fails the load (no empty frames)
   `c14_wrong_password`  : under a key nothing was sealed with, no frame opens: the loader gets no plaintext
   `c14_partial`         : the hypothesis "the loader read into the last frame" is needed (a loader that stops
                           earlier cannot notice that the last frame is gone).  For savefile it is checked per
@@ -96,6 +98,38 @@ theorem c14_wrong_password {α : Type} (A' : Aead) (hnone : ∀ nv c, A'.openF n
   obtain ⟨h1, _⟩ := decStream_wrong_key A' hnone A n0 chunks hne hc hseal
   rw [h1]
   exact RP.prefix_fails p chunks.flatten [] rest _ a hload (by simpa using hsome) List.nil_prefix
+
+/-- **Every byte a `CryptoWriter` program puts out is protected**, the tail included: for any program of writes
+    and flushes (flushes of an empty buffer included) that wrote at least one byte, and any loader that on the
+    intact plaintext consumes exactly what was written (`rest = []`, which the correspondence checks for
+    `savefile::load` on every saved file), every cut of the stream and every change of one stored byte makes the
+    loader fail.  What carries the proof is that the writer never seals an empty chunk (`CW.chunksProg_spec`): an
+    empty final frame would never be requested by the reader and so never authenticated.  The chunking of the real
+    writer is compared with `CW.chunksProg` on write/flush programs around the chunk size (suite `cwprog`). -/
+theorem c14_tampered_written {α : Type} (A : Aead) (prod) (hI : Ideal A prod) (n0 : NonceSeq) (hn : n0.wf)
+    (prog : List CWOp) (hp : ∀ e ∈ produced A n0 (CW.chunksProg [] prog), e ∈ prod)
+    (hne : CW.written prog ≠ [])
+    (p : RP α) (a : α) (hload : p.runWhole (CW.written prog) = (.val a, []))
+    (d : Bytes) (ht : Tampered (opsBytes (cryptoWriterProgOps A n0 prog)) d) :
+    ∃ e, p.runTerm (decStream A d).1 (decStream A d).2 = .io e := by
+  obtain ⟨h1, h2⟩ := CW.chunksProg_spec prog []
+  simp only [List.nil_append] at h1
+  rw [cryptoWriterProgOps_spec] at ht
+  have hcne : CW.chunksProg [] prog ≠ [] := by
+    intro e; rw [e] at h1; simp at h1; exact hne h1
+  obtain ⟨last, hlast⟩ : ∃ last, (CW.chunksProg [] prog).getLast? = some last := by
+    cases h : (CW.chunksProg [] prog).getLast? with
+    | none => exact absurd (List.getLast?_eq_none_iff.mp h) hcne
+    | some l => exact ⟨l, rfl⟩
+  have hlne : last ≠ [] := (h2 last (List.mem_of_getLast? hlast)).1
+  have hlpos : 0 < last.length := List.length_pos_iff.mpr hlne
+  exact c14_tampered_load A prod hI n0 hn (CW.chunksProg [] prog) last hlast hp h2 p a [] (by rw [h1]; exact hload)
+    (by simpa using hlpos) d ht
+
+/-- the hypotheses of `c14_tampered_written` are satisfiable: one write, a loader that reads it whole -/
+example : CW.written [.write [1, 2, 3], .flush, .flush] ≠ []
+    ∧ (RP.read 3 (fun b => RP.ret b.length)).runWhole (CW.written [.write [1, 2, 3], .flush, .flush]) = (.val 3, []) :=
+  ⟨by simp [CW.written], rfl⟩
 
 /-- the writer uses each nonce once (fewer than 2^96 frames per stream) -/
 theorem c14_nonce_once (A : Aead) (chunks : List Bytes) (n : NonceSeq) (hn : n.wf) (hl : chunks.length < 2 ^ 96) :
